@@ -401,6 +401,20 @@ def rule_A2(ctx):
             elif isinstance(rv, ast.Dict) or (isinstance(rv, ast.Call) and call_name(rv) in ("dict", "defaultdict") and not rv.args):
                 names_ok = False
         ctx.check(ret_ok and names_ok, "A2", "create_topology_dict_from_trace returns the dictionary it counted into", f.where(), "the returned dictionary is not the one handed to count_topology", construct=f.qualname, stmt="return topologies")
+        # one dictionary accumulates over all chains: counts and maxima of a topology seen in several chains add up /
+        # compete only if every entry is counted into the same mapping.  Merging per-chain dictionaries with
+        # dict.update / | / {**a, **b} overwrites instead (the last chain's record wins).
+        merges = []
+        if len(rets) == 1 and isinstance(rets[0].value, ast.Name):
+            rn = rets[0].value.id
+            for n in ast.walk(f.node):
+                if isinstance(n, ast.Call) and isinstance(n.func, ast.Attribute) and n.func.attr == "update" and isinstance(n.func.value, ast.Name) and n.func.value.id == rn and n.args:
+                    merges.append(n)
+                if isinstance(n, ast.AugAssign) and isinstance(n.op, ast.BitOr) and isinstance(n.target, ast.Name) and n.target.id == rn:
+                    merges.append(n)
+                if isinstance(n, ast.Assign) and any(isinstance(t, ast.Name) and t.id == rn for t in n.targets) and (isinstance(n.value, ast.BinOp) and isinstance(n.value.op, ast.BitOr) or (isinstance(n.value, ast.Dict) and any(k is None for k in n.value.keys))):
+                    merges.append(n)
+        ctx.check(not merges, "A2", "create_topology_dict_from_trace: one dictionary accumulates over all chains (no overwrite-merge of per-chain dictionaries)", f.where(merges[0]) if merges else f.where(), "`%s` merges a separately counted dictionary into the result by overwriting: a topology sampled in several chains keeps only the last chain's count and maximum" % (u(merges[0])[:80] if merges else ""), construct=f.qualname, stmt="overwrite-merge of topology dictionaries")
     ctx.analysed(f)
     # ---- one entry
     ex = extract(prog, ct)
